@@ -10,7 +10,8 @@ CONSTANTS MaxPickles
 Class == {"atom", "p0text", "binlen0", "binlen255", "binlen256", "binlen65536", "ints", "memo", "globals",
           "natural_lo", "natural_hi", "len8"}
 Trail == {"none", "junk", "truncated"}
-Kind  == {"bytes", "seekable", "nonseekable"}
+Kind  == {"bytes", "seekable", "file", "buffered", "nonseekable"}      \* seekable = io.BytesIO, file = a real file opened "rb",
+                                                                          \* buffered = io.BufferedReader over a raw stream
 VARIABLES classes, trail, offset, kind
 vars == <<classes, trail, offset, kind>>
 Init == /\ \E n \in 1..MaxPickles : classes \in [1..n -> Class]
